@@ -301,14 +301,14 @@ func c14Dirs(flags []string, widths, precs []c14Part) []c14Dir {
 }
 
 func c14Verbs(multibyte bool) []rune {
-	var vs []rune
+	vs := []rune("vdsxXq") // the common verbs first, so that the first failures reported are the telling ones
 	for c := 'a'; c <= 'z'; c++ {
-		if c != 'p' && c != 'w' {
+		if c != 'p' && c != 'w' && !strings.ContainsRune("vdsxq", c) {
 			vs = append(vs, c)
 		}
 	}
 	for c := 'A'; c <= 'Z'; c++ {
-		if c != 'T' {
+		if c != 'T' && c != 'X' {
 			vs = append(vs, c)
 		}
 	}
@@ -427,6 +427,14 @@ func (r *c14Run) checkFormat(call string, rec *c14Rec, d c14Dir) bool {
 	return true
 }
 
+// c14Short quotes a reference output for the "why" text, abbreviating the long ones (width 1000).
+func c14Short(s string) string {
+	if len(s) <= 160 {
+		return fmt.Sprintf("%q", s)
+	}
+	return fmt.Sprintf("%q...(%d bytes)...%q", s[:40], len(s), s[len(s)-60:])
+}
+
 // L1
 func (r *c14Run) token(d c14Dir, verb rune) (c14State, bool) {
 	rec := &c14Rec{}
@@ -486,7 +494,7 @@ func (r *c14Run) e2e(d c14Dir, verb rune, op c14Operand) {
 	}
 	for _, f := range forms {
 		if got := fmt.Sprintf(format, d.args(f.val)...); got != want {
-			r.bad(d.call("fmt.Sprintf", verb, f.name), got, "differs from the direct call "+d.call("fmt.Sprintf", verb, op.name)+fmt.Sprintf(" = %q", want))
+			r.bad(d.call("fmt.Sprintf", verb, f.name), got, "differs from the direct call "+d.call("fmt.Sprintf", verb, op.name)+" = "+c14Short(want))
 			return
 		}
 	}
@@ -549,13 +557,13 @@ func (r *c14Run) redactE2E(d c14Dir, verb rune, op c14Operand) {
 	}
 	if got := string(Sprintf(format, d.args(c14SafeFwd{op.val})...)); got != direct {
 		r.bad(d.call("redact.Sprintf", verb, "c14SafeFwd{"+op.name+"} /* SafeFormat forwards with MakeFormat + p.Printf */"), got,
-			"differs from the direct call "+d.call("redact.Sprintf", verb, op.name)+fmt.Sprintf(" = %q", direct))
+			"differs from the direct call "+d.call("redact.Sprintf", verb, op.name)+" = "+c14Short(direct))
 		return
 	}
 	want := fmt.Sprintf(format, d.args(op.val)...)
 	if got := Sprintf(format, d.args(c14Fwd{op.val})...).StripMarkers(); got != want {
 		r.bad(d.call("redact.Sprintf", verb, "c14Fwd{"+op.name+"} /* Format forwards with MakeFormat + fmt.Fprintf */")+".StripMarkers()", got,
-			"differs from the direct call "+d.call("fmt.Sprintf", verb, op.name)+fmt.Sprintf(" = %q", want))
+			"differs from the direct call "+d.call("fmt.Sprintf", verb, op.name)+" = "+c14Short(want))
 		return
 	}
 }
@@ -706,7 +714,7 @@ func TestVerifReplayC14(t *testing.T) {
 	ops := c14Operands(false)
 	if dirs, verbs := c14HintDirs(hints); dirs != nil {
 		if verbs == nil {
-			verbs = c14Verbs(false)
+			verbs = c14Verbs(true)
 		}
 		r.all(dirs, verbs, ops, ops)
 		if r.failed() > 0 {
@@ -715,14 +723,20 @@ func TestVerifReplayC14(t *testing.T) {
 	}
 	dirs := c14Dirs(c14Flags(false),
 		[]c14Part{{"", nil}, {"7", nil}, {"*", 0}, {"*", -3}},
-		[]c14Part{{"", nil}, {".1", nil}, {".*", 4}})
-	r.all(dirs, c14Verbs(false), ops, ops[:0])
+		[]c14Part{{"", nil}, {".0", nil}, {".1", nil}, {".*", 4}})
+	r.all(dirs, c14Verbs(true), ops, ops[:0])
+	if r.failed() > 0 {
+		return
+	}
+	// a four-digit width on a thinner slice
+	r.all(c14Dirs(c14Flags(false), []c14Part{{"1000", nil}}, []c14Part{{"", nil}, {".1", nil}}),
+		[]rune{'v', 'd', 's', 'x', 'q', 'e', '世'}, ops, ops[:0])
 	if r.failed() > 0 {
 		return
 	}
 	// redact's own printer on a thinner slice
-	r.all(c14Dirs(c14Flags(false), []c14Part{{"", nil}, {"7", nil}}, []c14Part{{"", nil}, {".1", nil}}),
-		[]rune{'v', 'd', 's', 'x', 'X', 'q', 'f', 'e', 'g', 'c', 'U', 't', 'b', 'o', 'z'}, ops[:0], ops)
+	r.all(c14Dirs(c14Flags(false), []c14Part{{"", nil}, {"7", nil}}, []c14Part{{"", nil}, {".0", nil}, {".1", nil}}),
+		[]rune{'v', 'd', 's', 'x', 'X', 'q', 'f', 'e', 'g', 'c', 'U', 't', 'b', 'o', 'z', '世'}, ops[:0], ops)
 }
 
 // ---------------------------------------------------------------------------------------------------
@@ -741,19 +755,11 @@ func TestVerifBoundedC14(t *testing.T) {
 		precs = append(precs, c14Part{".", nil}, c14Part{".5", nil}, c14Part{".*", 5}, c14Part{".*", -1})
 		bound = "all 32 subsets of the flags + - # space 0 (in canonical and in reversed order) x widths {absent, literal 0, 1, 7, 12, 1000, * with 0, 7, -7} x precisions {absent, ., .0, .1, .5, .7, .* with 5, -1}"
 	}
-	verbs := c14Verbs(thorough)
+	verbs := c14Verbs(true)
 	ops := c14Operands(thorough)
-	bound += fmt.Sprintf(" x %d verbs (every ASCII letter but T, p, w", len(verbs))
-	if thorough {
-		bound += ", and the multi-byte verbs é 世 😀"
-	}
-	bound += ")"
+	bound += fmt.Sprintf(" x %d verbs (every ASCII letter but T, p, w, and the multi-byte verbs é 世 😀)", len(verbs))
 	dirs := c14Dirs(flags, widths, precs)
-	workers := 1
-	if thorough {
-		workers = 4
-	}
-	r.parallel(workers, dirs, verbs, ops, ops)
+	r.parallel(4, dirs, verbs, ops, ops)
 
 	opb := fmt.Sprintf(" x %d operands (", len(ops))
 	for k, op := range ops {
@@ -779,5 +785,3 @@ func TestVerifBoundedC14(t *testing.T) {
 	emit(fmt.Sprintf("L4 redact.Sprintf(d, SafeFormatter forwarding x with MakeFormat+Printf) == redact.Sprintf(d, x), and redact.Sprintf(d, Formatter forwarding x with MakeFormat+fmt.Fprintf).StripMarkers() == fmt.Sprintf(d, x) (%d cases skipped: known corner)", r.re2eSkipped),
 		r.re2eCases, r.re2eNontrivial, "redact's output under the directive differs from its output under the bare verb", bound+opb)
 }
-
-var _ = strings.Contains
